@@ -296,6 +296,10 @@ def case_gen(draw, long_max):
         data['xs'] = draw(st.sampled_from([[-1.5, 0.0, -2.0, -0.5], [1.5, 0.0, 2.0, 0.5], [-1, 0, -2, -3], [2, 0, 3, 1], [0, -3, -5], [0, 3, 5],
                                            [big + 1, big - 40, big - 7], [-big - 1, -big + 40, -big + 7], [big + 1, big + 3, big + 2]]))
         data['numpy'] = False
+    if case['op'] in ('variance', 'stddev', 'mean') and kind == 'short' and draw(st.integers(0, 7)) == 0:
+        # a constant run at a magnitude whose square is not representable: the exact variance is 0 after every item
+        data['xs'] = [draw(st.sampled_from([1e306, -1e306, 1e200, 3e155]))] * draw(st.integers(2, 30))
+        data['numpy'] = False
     if case['op'] in ('min', 'max') and kind == 'short' and draw(st.integers(0, 2)) == 0:
         data['npint'] = draw(st.sampled_from(['uint8', 'int8', 'uint16', 'int64']))
     if mode == 'grouped':
